@@ -4,7 +4,6 @@ import (
 	"encoding/json"
 	"fmt"
 	"os"
-	"os/exec"
 	"path/filepath"
 	"sort"
 	"strings"
@@ -468,7 +467,7 @@ func runView(dirs []string) (*layout.View, error) {
 		args = append(args, "--uid", "65534")
 	}
 	args = append(args, dirs...)
-	out, err := exec.Command(bin, args...).Output()
+	out, err := pinnedCommand(bin, args...).Output()
 	if err != nil {
 		return nil, fmt.Errorf("vhelper view: %v (%s)", err, string(out))
 	}
